@@ -58,6 +58,10 @@ def _check(part, hist, ops, data, bname, res, ordered):
         )
 
 
+def _with_extra(t):
+    return {"columns": t["columns"] + ["undeclared_extra"], "types": dict(t["types"], undeclared_extra="int"), "rows": [tuple(r) + (9,) for r in t["rows"]]}
+
+
 def work(hists, cfg, open_ids):
     part = core.Part(open_ids)
     pg = backends.pg_model()
@@ -69,7 +73,11 @@ def work(hists, cfg, open_ids):
         g = backends.gen_sql(ops)
         gp = backends.gen_sql(ops, model=pg)
         tabs = H.hist_tables(hist)
-        for data in inputs.data_maps(tabs, cfg["kd"], cfg["ke"], D2, E2):
+        datas = inputs.data_maps(tabs, cfg["kd"], cfg["ke"], D2, E2)
+        # the empty and the largest input once more with a column the table description does not declare (a frame /
+        # database table may carry more columns than the description): it must never come back
+        datas = datas + [{k: _with_extra(t) for k, t in dm.items()} for dm in (datas[0], datas[-1])]
+        for data in datas:
             part.count("traces_validated_against_impl")
             _check(part, hist, ops, data, "pandas", backends.run_pandas(ops, data), ordered)
             _check(part, hist, ops, data, "polars_eager", backends.run_polars(ops, data, lazy=False), ordered)
@@ -83,7 +91,7 @@ def work(hists, cfg, open_ids):
 def run(tier):
     cfg = tier_cfg(tier)
     run = core.Run(PROP, tier)
-    ex = explorer.Explorer(menus.core_menu)
+    ex = explorer.Explorer(menus.core_menu_q if tier == "quick" else menus.core_menu)
     states = ex.run(cfg["depth"])
     hists = [s.hist for s in states]
     st = ex.stats()
@@ -108,9 +116,9 @@ def run(tier):
     ]
     return run.finish(
         exhaustive=True,
-        rule=f"all pipelines reachable in <= {cfg['depth']} builder calls over the core menu"
+        rule=f"all pipelines reachable in <= {cfg['depth']} builder calls over the core menu" + (" (quick tier: the first call from a thinner one-per-shape selection of the menu, every later call from the full menu)" if tier == "quick" else "")
         + (f" plus <= {cfg['slice_depth']} over the column slice" if cfg["slice_depth"] else "")
-        + f" x all multisets of <= {cfg['kd']} rows over a 2-row alphabet of d (<= {cfg['ke']} of e) x 5 backends",
+        + f" x all multisets of <= {cfg['kd']} rows over a 2-row alphabet of d (<= {cfg['ke']} of e), plus the empty and the largest input carrying an undeclared extra column, x 5 backends",
         extra=extra,
     )
 
